@@ -141,6 +141,7 @@ def run_shard(args):
     mid = None
     n = 0
     signal.signal(signal.SIGVTALRM, _on_alarm)
+    hangs = 0
     try:
         for case in mod.cases(shard):
             ctx.case = case
@@ -160,6 +161,10 @@ def run_shard(args):
                 mod.check(case, ctx)
             except Hang:
                 ctx.fail(f'hang: the case did not finish within {HANG_SECONDS} CPU-seconds (termination)', hang=True)
+                hangs += 1
+                if hangs >= 2:
+                    ctx.cap('shard abandoned after two cases that did not terminate')
+                    break
             finally:
                 signal.setitimer(signal.ITIMER_VIRTUAL, 0)
             if stop_after is not None and n - 1 >= stop_after:
@@ -275,6 +280,13 @@ def run_pool(prop, mod, shards, jobs):
                 results[idx] = res
                 w['busy'] = None
                 pending -= 1
+                soft = sum(1 for f in res.get('fails', []) if f.get('hang'))
+                if soft:
+                    hangs += soft
+                    if hangs >= MAX_HANGS:
+                        # non-terminating cases found: stop exploring, report what was found
+                        aborted = True
+                        break
                 continue
             cur = progress[slot]
             now = time.time()
@@ -314,7 +326,7 @@ def run_pool(prop, mod, shards, jobs):
         w['proc'].join(timeout=5)
         if w['proc'].is_alive():
             w['proc'].kill()
-    if aborted:
+    if aborted and hang_fails:
         hang_fails[0]['msg'] += f' | exploration aborted after {hangs} hangs'
     return results, hang_fails
 
